@@ -47,6 +47,8 @@ def daily_fit_effect(self, meter_data):
 
 
 def predict_effect(self, df_eval, mask_observed_with_missing_temperature=True):
+    # ghost record of the call: which frame was predicted and whether the CalTRACK 3.5.1.1 masking was requested
+    self.ghost_predict_calls = self.ghost_predict_calls + [(df_eval, mask_observed_with_missing_temperature)]
     return opaque("prediction frame")
 
 
@@ -148,7 +150,7 @@ def predict_gate(family, kind, fitted, ignore: Bool):
     data = data_object(family, kind)
     cls = model_class(family)
     m = new_object(cls, disqualification=fresh_seq("model.disqualification"), baseline_timezone=opaque("model.tz"),
-                   warnings=fresh_seq("model.warnings"), _ts_features=["temperature"])
+                   warnings=fresh_seq("model.warnings"), _ts_features=["temperature"], ghost_predict_calls=[])
     if fitted == "yes":
         m.is_fitted = True
     if fitted == "no":
@@ -192,3 +194,30 @@ def restore(family):
     check("C04.restore.warnings", length(m.warnings) == length(ws))
     check("C04.restore.fitted", m.is_fitted == True)  # noqa: E712
     check("C04.restore.timezone", m.baseline_timezone == "UTC")
+
+
+# ----------------------------------------------------------------------------------------------------------------------------------
+# C07 at the PUBLIC entry point: whatever data class the comparison period is wrapped in, predict() hands the data object's own frame to _predict exactly
+# once and asks for the masking of usage on days without temperature (the row-wise proof of _predict, contracts/C07_mask.py, assumes that flag)
+
+MASK_CASES = [{"family": f, "kind": k} for f in ["daily", "billing"] for k in ["baseline", "reporting"]]
+
+
+@harness("C07.public", prop="C07", cases=MASK_CASES, permissive=True)
+def public_predict_masks(family, kind, ignore: Bool):
+    data = data_object(family, kind)
+    cls = model_class(family)
+    m = new_object(cls, disqualification=fresh_seq("model.disqualification"), baseline_timezone=opaque("model.tz"),
+                   warnings=fresh_seq("model.warnings"), is_fitted=True, ghost_predict_calls=[])
+    if family == "billing":
+        out = outcome(m.predict, data, None, ignore)
+    else:
+        out = outcome(m.predict, data, ignore)
+    calls = m.ghost_predict_calls
+    if out.returned:
+        check("C07.public.predicted_once", len(calls) == 1)
+        if len(calls) == 1:
+            check("C07.public.masking_requested", calls[0][1] is True)
+            check("C07.public.own_frame", calls[0][0] is data.df)
+    else:
+        check("C07.public.nothing_predicted_when_raising", len(calls) == 0)
